@@ -451,10 +451,29 @@ def r12_first_row_missing(ctx, rule="C11.R12"):
                         continue
                     V = unparse(isi[0].args[0])
                     n += 1
-                    core = t.operand if isinstance(t, ast.UnaryOp) and isinstance(t.op, ast.Not) else t
-                    ok = isinstance(core, ast.BoolOp) and isinstance(core.op, ast.Or) and any(canon(unparse(v)) == canon(f"{V} is None") for v in core.values) \
-                        and any(v is isi[0] for v in core.values)
-                    ctx.ob(rule, EF, qual, comp, "the numeric-feature test on the first context admits a missing value", ok, detail={"test": unparse(t)})
+                    # the test as a boolean function of A = isinstance(v, (int, float)) and B = `v is None`, evaluated by substitution (any equivalent spelling is accepted):
+                    # a test that selects numbers (P(A)=True) must select a missing value too, a test that selects what to leave alone must not
+                    def truth(a_val, b_val, t=t, V=V):
+                        class Sub(ast.NodeTransformer):
+                            def visit_Call(self, node):
+                                if call_name(node) == "isinstance" and unparse(node.args[0]) == V:
+                                    return ast.Constant(value=a_val)
+                                return self.generic_visit(node)
+
+                            def visit_Compare(self, node):
+                                if canon(unparse(node)) == canon(f"{V} is None"):
+                                    return ast.Constant(value=b_val)
+                                if canon(unparse(node)) == canon(f"{V} is not None"):
+                                    return ast.Constant(value=not b_val)
+                                return self.generic_visit(node)
+                        e = Sub().visit(ast.parse(unparse(t), mode="eval").body)
+                        if any(isinstance(y, (ast.Name, ast.Call, ast.Attribute)) for y in ast.walk(e)):
+                            return None
+                        return bool(eval(compile(ast.fix_missing_locations(ast.Expression(e)), "<truth>", "eval"), {"__builtins__": {}}))   # constant folding
+                    num, mis = truth(True, False), truth(False, True)
+                    ok = num is not None and mis is not None and num == mis
+                    ctx.ob(rule, EF, qual, comp, "the numeric-feature test on the first context treats a missing value like a number (selected with them / not excluded)", ok,
+                           detail={"test": unparse(t), "P(number)": num, "P(missing)": mis})
     ctx.floor(rule, "first-context type tests in Scale/Impute", n, 4)
     fit = ctx.fn(EF, "Scale._get_shift_and_scale")
     guards = [st for st in ast.walk(fit) if isinstance(st, ast.If) and any(isinstance(r, ast.Return) and isinstance(r.value, ast.Constant) and r.value.value is None for r in st.body)
